@@ -32,6 +32,10 @@ add("C08",
     "Coq theorems: every UTC offset -23:59..+23:59 denotes the instant of the same date-time in Z notation minus the offset (all 2878 offsets checked inside Coq and lifted, for every date-time); for all instants, a Wait never fires before its target, fires exactly at it when delivered on time and at once when delivered late or redelivered; Task and Wait are cut exactly at the task / execution deadline. The hand-written timestamp parser is pinned to parse_rfc3339_datetime by digest and compared with it on every offset; Wait/Task executions on the virtual clock (delivery delays, crash and redelivery, Catch) are checked in Coq against the specification and the deadline model.",
     "Trusted: Coq kernel + vm_compute; calendar arithmetic of datetime/strptime (tied by the exhaustive sweep, not proved); virtual clock makes float arithmetic exact; stale-timer clause is checked by the drain oracle of C03, uncatchability of the execution timeout by C07.",
     "Coq proof (arithmetic + finite sweep lifted) + executions on a virtual clock checked in Coq", "DESIGN.md section 6 (C08)")
+add("C07",
+    "Coq theorems over the Retry/Catch decision of handle_error (constants and unrecoverable set regenerated from the source, body pinned): unrecoverable errors are never retried or caught; the first matching retrier decides, the k-th retry after IntervalSeconds x BackoffRate^k, at most MaxAttempts (0 = never); then the first matching catcher, else failure; the Error Output is placed by the catcher's ResultPath into the original input (put-get and frame from C12); a whole state visit refines the States Language per-retrier policy whenever one retrier at most is involved (any number of attempts). With several retriers taking turns the shared counter departs from the policy: refuted theorem and known finding F20. ~450 real Task executions per run (delays on the virtual clock) are checked in Coq against the per-retrier specification and against the model.",
+    "Trusted: Coq kernel + vm_compute; translator; pin of handle_error; dyadic back-off rates (exact floats); States.TaskFailed-matches-everything is the engine's documented reading; Map/Parallel as the retried state use the same handle_error and are exercised by the engine-group checks.",
+    "Coq proof (refinement to per-retrier policy) + executions on the virtual clock checked in Coq", "DESIGN.md section 6 (C07)")
 DONE = [c["property_id"] for c in checks]
 m = {
  "version": 1,
